@@ -41,6 +41,27 @@
 (* checks that are (wrongly) made only in the presence of an optional      *)
 (* property; MC_Handshake_weak.cfg shows that the judge then fires, i.e.   *)
 (* the new dimension is not vacuous.                                       *)
+(*                                                                         *)
+(* Strengthening round 3, two more dimensions:                             *)
+(*  Lie(p, i)   (a configuration, before anything else happens) party p    *)
+(*              announces a participant GUID that differs from the one     *)
+(*              bound to its certificate in byte i (i \in GuidBytes; which  *)
+(*              bits: refined by the harness).  validate_remote_guid       *)
+(*              compares bytes 0..5 (the 48 certificate-derived bits) of   *)
+(*              the GUID in c.pdata of a request (begin_handshake_reply)   *)
+(*              and of a reply (process_handshake).  Weak "guid@5bytes":   *)
+(*              only bytes 0..4 are compared.                              *)
+(*  via         how a delivery reaches the plugin: "disc" = the call       *)
+(*              secure_discovery.rs makes from its own mirror of the       *)
+(*              state; "api" = dispatch by message kind at the plugin API: *)
+(*              a request goes to begin_handshake_reply in ANY state, so   *)
+(*              only the plugin's own state guard (PendingRequestMessage)  *)
+(*              protects a pending handshake.  B's stored DH2 / challenge2 *)
+(*              belong to the LAST reply it built (`rg` counts them);      *)
+(*              the final message carries those of the reply the initiator *)
+(*              consumed (`built`).  Weak "final@begin_reply": the guard   *)
+(*              also lets a request through while the final message is     *)
+(*              awaited (the replier answers again).                       *)
 (***************************************************************************)
 EXTENDS HandshakeAbs, Json
 
@@ -49,37 +70,55 @@ CONSTANTS MaxAtk,   \* attacker deliveries per run
           Known,    \* deviations listed as known findings
           Gen,      \* TRUE: dump behaviours for replay
           StripProps, \* optional properties the attacker removes in this model instance
-          Weak      \* checks (wrongly) guarded by the presence of an optional property: subset of {"ch1@reply"}
+          Weak,     \* weakened checks: subset of {"ch1@reply", "guid@5bytes", "final@begin_reply"}
+          GuidBytes, \* byte positions in which a party may announce a GUID other than its bound one ({}: nobody lies)
+          Vias      \* dispatches explored: subset of {"disc", "api"}
 
 VARIABLES alive,    \* the plugin still holds its handshake state (S7 destroys it)
+          lieAt,    \* [p, i]: party p announces a GUID differing in byte i from its bound one (p = "none": nobody)
+          rg,       \* number of replies B has built (its stored DH2 / challenge2 belong to the last one)
+          built,    \* which of them the initiator consumed to build the final message (0: none yet)
           atk, trail
-vars == <<absVars, alive, atk, trail>>
+vars == <<absVars, alive, lieAt, rg, built, atk, trail>>
 
-Init == AbsInit /\ alive = [p \in Parties |-> TRUE] /\ atk = 0 /\ trail = <<>>
+Init == AbsInit /\ alive = [p \in Parties |-> TRUE] /\ lieAt = [p |-> "none", i |-> 0] /\ rg = 0 /\ built = 0
+        /\ atk = 0 /\ trail = <<>>
 
 AltsFor(k) == IF k = "req" THEN {"none", "det", "b:dh1", "b:challenge1", "b:c.perm"} ELSE {"none", "det"}
 StripsFor(k) == SUBSET (OptProps(k) \cap StripProps)
 
-Call(to, mid) ==
+Call(to, mid, via) ==
   IF ds[to] = "ReqMsg" THEN "begin_reply"
+  ELSE IF via = "api" /\ msgs[mid].k = "req" THEN "begin_reply"
   ELSE IF ds[to] = "Final" /\ "S13" \in Fix /\ msgs[mid].k = "req" THEN "begin_reply"
   ELSE IF ds[to] \in {"Reply", "Final"} THEN "process"
   ELSE "none"
 
+\* "api" is a dispatch of its own only where it makes another call than "disc"
+ViaApplies(to, mid, via) == via = "disc" \/ Call(to, mid, "api") # Call(to, mid, "disc")
+
+\* validate_remote_guid on the GUID in c.pdata (request, reply of THIS session: the recorded ones were honest)
+CheckedGuidBytes == IF "guid@5bytes" \in Weak THEN 0..4 ELSE CertBytes
+GuidOK(mid) == ~(mid \in {1, 2} /\ msgs[mid].by = lieAt.p /\ lieAt.i \in CheckedGuidBytes)
+
 \* transcription of the checks in authentication.rs
-Accepts(to, mid, alt, strip) ==
-  LET m == msgs[mid] c == Call(to, mid)
+Accepts(to, mid, alt, strip, via) ==
+  LET m == msgs[mid] c == Call(to, mid, via)
       \* types.rs extract_reply / extract_final insist on dh1 / dh2 (the standard calls them optional)
       parses == strip \cap {"dh1", "dh2"} = {}
   IN
   CASE c = "begin_reply" ->
+         \* the plugin's own state guard: PendingRequestMessage only (an ideal replier restarts, Fix S13)
+         /\ \/ ds[to] = "ReqMsg"
+            \/ ds[to] = "Final" /\ ("S13" \in Fix \/ ("final@begin_reply" \in Weak /\ alive[to]))
          \* parse, CA, GUID binding, kagree; dh1 / challenge1 are taken as they come; an old request is
          \* self-consistent; hash_c1 is compared with Hash(C1 as received) ONLY IF PRESENT, and nothing
          \* else covers c.perm / c.pdata (beyond the GUID) / c.dsign_algo of the unsigned request
-         m.k = "req" /\ (alt \in {"none", "b:dh1", "b:challenge1"} \/ (alt = "b:c.perm" /\ "hash_c1" \in strip))
+         /\ m.k = "req" /\ (alt \in {"none", "b:dh1", "b:challenge1"} \/ (alt = "b:c.perm" /\ "hash_c1" \in strip))
+         /\ GuidOK(mid)
     [] c = "process" /\ ds[to] = "Reply" ->
          /\ alive[to] \/ "S7" \in Fix
-         /\ m.k = "reply" /\ alt = "none" /\ parses
+         /\ m.k = "reply" /\ alt = "none" /\ parses /\ GuidOK(mid)
          \* hash_c1 / hash_c2 compared only if present, but the signature is verified over the initiator's
          \* own hash_c1 and the recomputed hash_c2: a reply built on an altered C1 never verifies
          /\ \/ /\ mid = 2
@@ -93,39 +132,57 @@ Accepts(to, mid, alt, strip) ==
          \* dh1, dh2, challenge1/2 equal to what this replier stored (unconditional), hash_c1/2 if present,
          \* signature over the replier's own values
          /\ accAlt[to] = "none" /\ m.ralt = "none"
+         \* DH2 / challenge2 stored by the replier are those of the reply the initiator consumed (an ideal
+         \* replier keeps what it needs for every reply it has in flight)
+         /\ "S13" \in Fix \/ built = rg
     [] OTHER -> FALSE
+
+\* a configuration step: before anything else, party p announces a GUID differing in byte i from its bound one
+Lie(p, i) ==
+  /\ lieAt.p = "none" /\ atk = 0 /\ i \in GuidBytes
+  /\ AbsLie(p, LieClass({i}))
+  /\ lieAt' = [p |-> p, i |-> i]
+  /\ trail' = IF Gen THEN Append(trail, [a |-> "Lie", to |-> p, mid |-> 0, alt |-> "none", strip |-> {}, via |-> "disc", pos |-> i]) ELSE trail
+  /\ UNCHANGED <<alive, rg, built, atk>>
 
 Req ==
   /\ ds["A"] = "ReqSend"
   /\ AbsReq(Known, "acc", 1, sec)
-  /\ trail' = IF Gen THEN Append(trail, [a |-> "Req", to |-> "A", mid |-> 0, alt |-> "none", strip |-> {}]) ELSE trail
-  /\ UNCHANGED <<alive, atk>>
+  /\ trail' = IF Gen THEN Append(trail, [a |-> "Req", to |-> "A", mid |-> 0, alt |-> "none", strip |-> {}, via |-> "disc"]) ELSE trail
+  /\ UNCHANGED <<alive, lieAt, rg, built, atk>>
 
-Dlv(to, mid, alt, strip) ==
-  LET c   == Call(to, mid)
-      acc == Accepts(to, mid, alt, strip)
+Dlv(to, mid, alt, strip, via) ==
+  LET c   == Call(to, mid, via)
+      acc == Accepts(to, mid, alt, strip, via)
       out == IF c = "none" THEN "ign" ELSE IF acc THEN "acc" ELSE "rej"
       emit == IF ~acc THEN 0 ELSE IF c = "begin_reply" THEN 2 ELSE IF ds[to] = "Reply" THEN 3 ELSE 0
       s2  == [sec EXCEPT ![to] = IF acc /\ c = "process" THEN 1 ELSE @]
-      cost == IF Expected(to, mid, alt, strip) THEN 0 ELSE 1
+      \* the natural next step of the exchange costs the attacker nothing (also when a party lies about its GUID)
+      cost == IF InOrder(to, mid, alt, strip) THEN 0 ELSE 1
   IN
   /\ mid \in DOMAIN msgs /\ alt \in AltsFor(msgs[mid].k) /\ strip \in StripsFor(msgs[mid].k)
+  /\ via \in Vias /\ ViaApplies(to, mid, via)
   /\ atk + cost <= MaxAtk
   /\ atk' = atk + cost
   /\ AbsDlv(Known, to, mid, alt, strip, c, out, emit, s2)
   /\ alive' = [alive EXCEPT ![to] = IF c = "process" /\ ~acc /\ "S7" \notin Fix THEN FALSE
                                      ELSE IF c = "begin_reply" /\ acc THEN TRUE ELSE @]
-  /\ trail' = IF Gen THEN Append(trail, [a |-> "Dlv", to |-> to, mid |-> mid, alt |-> alt, strip |-> strip]) ELSE trail
+  /\ rg' = IF c = "begin_reply" /\ acc THEN rg + 1 ELSE rg
+  /\ built' = IF c = "process" /\ acc /\ ds[to] = "Reply" THEN rg ELSE built
+  /\ trail' = IF Gen THEN Append(trail, [a |-> "Dlv", to |-> to, mid |-> mid, alt |-> alt, strip |-> strip, via |-> via]) ELSE trail
+  /\ UNCHANGED lieAt
 
-Next == Req \/ \E to \in Parties, mid \in {1, 2, 3, 11, 12, 13}, alt \in {"none", "det", "b:dh1", "b:challenge1", "b:c.perm"},
-                 strip \in SUBSET AllOptProps : Dlv(to, mid, alt, strip)
+Next == \/ Req
+        \/ \E p \in Parties, i \in GuidBytes : Lie(p, i)
+        \/ \E to \in Parties, mid \in {1, 2, 3, 11, 12, 13}, alt \in {"none", "det", "b:dh1", "b:challenge1", "b:c.perm"},
+                 strip \in SUBSET AllOptProps, via \in {"disc", "api"} : Dlv(to, mid, alt, strip, via)
 
 \* genuine progress: deliveries that cost the attacker nothing
-Genuine == Req \/ \E to \in Parties, mid \in {1, 2, 3} : (Expected(to, mid, "none", {}) /\ Dlv(to, mid, "none", {}))
+Genuine == Req \/ \E to \in Parties, mid \in {1, 2, 3} : (Expected(to, mid, "none", {}) /\ Dlv(to, mid, "none", {}, "disc"))
 
 Spec == Init /\ [][Next]_vars /\ WF_vars(Genuine)
 
-View == <<absVars, alive, atk>>
+View == <<absVars, alive, lieAt, rg, built, atk>>
 
 Inv_NoViolation == viol = {}
 \* deviations appear only when they are in the model
